@@ -158,8 +158,11 @@ class Conv:
             except refreader.ReadError:
                 fnum = self.num(['<unreadable>', r.out_text])
         unable = 'unable to minimize input file' in (r.stderr + r.stdout)
+        # with -qq the warning is not printed: the report cannot be observed
+        nq = sum(a.count('q') for a in r.argv
+                 if a.startswith('-q') and set(a[1:]) == {'q'})
         out.append({'e': 'exit', 'status': r.status, 'unable': unable,
-                    'file': fnum})
+                    'hidden': nq >= 2, 'file': fnum})
         strat = {('ddmin', ): 'ddmin', ('hier', ): 'hierarchical',
                  ('ddmin', 'hier'): 'hybrid'}.get(
                      tuple(e['strat'] for e in begins), 'hybrid')
